@@ -94,8 +94,33 @@ def run(rep, tier, seed):
         items.append(("rate", desc, model(GDECL, [templ("P", inv=inv)], sys1), {0}))
     # dynamic templates
     items.append(("dynamic", "dynamic-template", model(GDECL + " dynamic D(int p);", [templ("P")], sys1), {0}))
+    # a restricting feature surrounded by harmless constructs (before and after it, same and other templates):
+    # a later harmless location / edge / variable must not erase what an earlier one established
+    harmless_q = templ("Q", tdecl="clock qx; int qi = 2;", inv="qx <= 5", guard="qx >= 1 && qi < 3", update="qi = 1, qx = 0")
+    harmless_r = templ("R", tdecl="clock rx;", inv="rx <= 7 && rx' == 1")
+    feats = [("fp-compare", templ("P", guard="x < 1.5")), ("fp-compare-inv", templ("P", inv="x <= 1.5")), ("fp-assign", templ("P", update="x = 1.5")),
+             ("rate", templ("P", inv="x' == 2")), ("fp-init", templ("P", tdecl="clock lz = 0.5;"))]
+    for fname, ft in feats:
+        for order, ts, sysl in (("feature-first", [ft, harmless_q, harmless_r], "system P, Q, R;"), ("feature-last", [harmless_q, harmless_r, ft], "system Q, R, P;"),
+                                ("feature-middle", [harmless_q, ft, harmless_r], "system R, P, Q;")):
+            items.append(("composed", "%s/%s" % (fname, order), model(GDECL, ts, sysl), {0}))
+    # two locations in one template: the restricting invariant first / last
+    def two_loc(inv_a, inv_b):
+        return ('<template><name>P</name><declaration/>'
+                '<location id="a"><name>A</name>%s</location><location id="b"><name>B</name>%s</location><location id="c"><name>C</name>%s</location>'
+                '<init ref="a"/><transition><source ref="a"/><target ref="b"/></transition></template>' % (
+                    xmlgen.label("invariant", inv_a), xmlgen.label("invariant", inv_b), xmlgen.label("invariant", "y <= 9")))
+    for desc, ia, ib in [("rate-then-plain", "x' == 2", "x <= 5"), ("plain-then-rate", "x <= 5", "x' == 2"), ("fpcmp-then-plain", "x <= 1.5", "y <= 5"),
+                         ("plain-then-fpcmp", "y <= 5", "x <= 1.5")]:
+        items.append(("composed", "two-locations/" + desc, model(GDECL, [two_loc(ia, ib)], sys1), {0}))
+    items.append(("composed", "global-fp-clock-init+invariant", model(GDECL + " clock z = 2.5;", [templ("P", inv="x <= 5")], sys1), {0}))
+    items.append(("composed", "chan+priorities", model(GDECL + " chan c;", [templ("P"), templ("Q")], "system P < Q;"), {1, 2}))
     # channels
-    for desc, gd, td, par, sy in [("global-chan", " chan c;", "", "", sys1), ("global-urgent-chan", " urgent chan c;", "", "", sys1),
+    for desc, gd, td, par, sy in [("local-urgent-chan", "", "urgent chan lu;", "", sys1), ("global-urgent-chan-array", " urgent chan ua[3];", "", "", sys1),
+                                  ("local-urgent-chan-array", "", "urgent chan lua[2];", "", sys1),
+                                  ("typedef-urgent-chan-local", " typedef urgent chan uc_t;", "uc_t tu;", "", sys1),
+                                  ("typedef-chan-global", " typedef chan c_t; c_t tc;", "", "", sys1),
+                                  ("local-chan-after-broadcast", "", "broadcast chan lb; chan lc2;", "", sys1),("global-chan", " chan c;", "", "", sys1), ("global-urgent-chan", " urgent chan c;", "", "", sys1),
                                   ("global-chan-array", " chan ca[2];", "", "", sys1), ("local-chan", "", "chan lc;", "", sys1),
                                   ("chan-after-broadcast", " broadcast chan b2; chan c;", "", "", sys1),
                                   ("chan-in-struct-free", " chan c1, c2;", "", "", sys1),
